@@ -301,6 +301,58 @@ func C20(p *ir.Program, r *report.R) {
 		}
 	}
 
+	// ---- everything that reads operands off the stack runs after the stack-depth check ------------------
+	// enforceRestrictions looks at stack.Back(2) for CALL in a read-only frame; the gas and memory
+	// functions read their operands too: all of them are dominated by validateStack(...) == nil.
+	{
+		run := p.Func("vm/evm", "Interpreter.Run")
+		nR := 0
+		ir.Instrs(run, func(in ssa.Instruction) {
+			call, ok := in.(*ssa.Call)
+			if !ok {
+				return
+			}
+			n := ir.CalleeName(call)
+			kind := ""
+			switch {
+			case n == "evm.Interpreter.enforceRestrictions":
+				kind = "enforceRestrictions"
+			case strings.HasPrefix(n, "dyn:") && strings.HasSuffix(n, ".gasCost"):
+				kind = "gasCost"
+			case strings.HasPrefix(n, "dyn:") && strings.HasSuffix(n, ".memorySize"):
+				kind = "memorySize"
+			case strings.HasPrefix(n, "dyn:") && strings.HasSuffix(n, ".execute"):
+				kind = "execute"
+			}
+			if kind != "" {
+				nR++
+				c.Guards("evm.(*Interpreter).Run", "stack reader "+kind, in, G{"after-stack-validation", "eq(dyn:*.validateStack(stack),nil)"})
+			}
+		})
+		r.Check("K1", "evm.(*Interpreter).Run/stack-readers", p.Pos(run.Pos()), nR >= 4, fmt.Sprintf("%d stack-reading calls found in Run (enforceRestrictions, gasCost, memorySize, execute)", nR))
+	}
+
+	// ---- the gas function and the operation agree on which stack word is the value ------------------------
+	// CALL and CALLCODE charge the value-transfer surcharge when stack.Back(2) (the value the operation
+	// pops third) is non-zero; the operation grants the stipend under the same word.
+	for _, gn := range []string{"gasCall", "gasCallCode"} {
+		fn := p.Func("vm/evm", gn)
+		okSlot := false
+		nSign := 0
+		ir.Instrs(fn, func(in ssa.Instruction) {
+			if call, ok := in.(*ssa.Call); ok && ir.CalleeName(call) == "big.Int.Sign" {
+				nSign++
+				if Arg(call, 0) == "evm.Stack.Back(stack,2)" {
+					okSlot = true
+				} else {
+					okSlot = false
+					nSign += 100
+				}
+			}
+		})
+		r.Check("K5", "call-value-slot/vm/evm."+gn, p.Pos(fn.Pos()), okSlot && nSign >= 1 && nSign < 100, "the value-transfer surcharge is decided by stack.Back(2), the word the operation pops as value")
+	}
+
 	// ---- slices bounded by 256-bit stack words ---------------------------------------------------
 	// A slice bound taken from a big.Int with Uint64() silently truncates: the word must be known
 	// to fit 64 bits and to be within the sliced buffer (or be clamped with BigMin to its length).
